@@ -392,8 +392,18 @@ def gen_recipe(rng, mode):
     np_ = rng.choice([1, 1, 2, 3, 4, 5, 6])
     nops = rng.choice([1, 2, 3, 4, 5, 6, 7, 8]) if rng.random() < 0.9 else rng.choice([1.5, 2.5, 4.75])
     ratio = rng.choice([0, 0.25, 0.5, 0.75, 1, 0.0, 1.0])
+    many = rng.random() < 0.12
+    if many:
+        # wide arrival events and enough of them for the running counter to pass 100: ids must stay fresh whatever
+        # their digits are (an id built from two numbers written next to each other collides only here)
+        np_ = rng.choice([10, 11, 12, 13, 21, 25])
+        nops = rng.choice([1, 1, 2])
+        gap = rng.choice([0, 1, 2])
+        wsm = (gap + 0.0) / tps if gap else 0.0
     per_event = np_ * (2 + nops) + 1
     n_events = max(2, min(40, int(450 // per_event)))
+    if many:
+        n_events = rng.randint(12, 16)
     nticks = int(min(400, max(gap + 1, 1) * n_events + rng.choice([0, 1, 3])))
     rec = dict(gen=mode, seed=rng.randrange(2 ** 31), wsm=wsm, np=np_, nops=nops, ratio=ratio, probs=list(probs),
                tps=tps, nticks=nticks)
@@ -535,7 +545,7 @@ def run(ctx):
         hits.append(dict(desc=f'statistical runs raised {e!r}', signature='driver-exception', recipe=None, gen='S-stat'))
     return dict(cases=cases, hits=hits, dist={k: st[k] for k in sorted(st)}, distinct_nontrivial=len(seen),
                 rule='G-gen: WorkloadGenerator(**get_param_defaults() overridden) behind a recording rng proxy; seeds x '
-                     '(probability triples incl. zeros / certain classes / unnormalised, num_pipelines 1..6, num_operators 1..8 '
+                     '(probability triples incl. zeros / certain classes / unnormalised, num_pipelines 1..6 and 10..25, num_operators 1..8 '
                      'and fractional, cpu_io_ratio 0..1, tick rates 1..1e5, mean gap from below one tick to 120 ticks (two '
                      'minutes at 1 tick/s)), <= 400 ticks; G-script: the same with a scripted rng answering boundary values '
                      '(ladder thresholds +- ulp, counts and gaps around 0 and 1); G-bad: truncated / wrong-kind streams replayed '
